@@ -672,7 +672,9 @@ def check_c10_end(w):
             if hasattr(fo, 'writes'):
                 seq = [(x[2], x[3]) for x in fo.writes]
             else:
-                seq = [(None, len(x[2])) for x in fo.chunks]
+                # (a write the destination accepted only in part - injected
+                # BlockingIOError - is not one of the queued writes)
+                seq = [(None, len(x[2])) for x in fo.chunks if len(x) < 4]
             i = 0
             for item in seq:
                 while i < len(subs) and subs[i] != item:
